@@ -107,9 +107,17 @@ CLAIMED["C26"] = (
     "report exactly whether some execution passed / was skipped / failed / errored; AllSucceeded is true exactly when every case succeeded "
     "in some execution or was skipped; Passes/Failures/Errors/Skips equal recursive count specifications over the cases; findMatchingTestCase "
     "returns the first case with the same name AND class name (or -1), which is what decides that flaky retries are merged and distinct cases "
-    "are not. Kernel-only: the JUnit-XML and `go test -v` parsers (encoding/xml, go-junit-report) and doFlakeRun are not under contract.",
-    COMMON_NOTE + "&loopVariable is modelled as a fresh cell holding the current value.",
-    "contract-based deductive verification (search/count loop invariants, recursive count specs + SMT)", "6/C26")
+    "are not. The readers: every append* helper adds exactly one execution of its class and keeps the earlier ones; appendResult puts the case's "
+    "own outcome first (failure before error before skipped, success otherwise) and one execution per recorded flaky/rerun attempt, none of "
+    "them a pass; toCoreTestSuite yields one case per <testcase>, in order, under the same name and class name; parseJUnitXMLTestResults hands "
+    "every case to appendResult under the element's own name (a genuine defect found here and repaired: bare <testcase> elements lost their "
+    "names and were merged into one flaky pass) and keeps every suite of a <testsuites> element; parseGoTestResults runs go-junit-report "
+    "with default options and maps each test of the package to one case of the stated class; TestSuite.Add and Collapse never drop a case or "
+    "an execution; logTargetResults reports the target as tested exactly when AllSucceeded. Kernel-only: encoding/xml and go-junit-report "
+    "themselves (what they decode from the bytes), doFlakeRun's loop and the synthetic results of parseTestOutput are not under contract.",
+    COMMON_NOTE + "that encoding/xml leaves no nil pointer in a decoded slice is assumed (precall=off on parseJUnitXMLTestResults); library structs of "
+    "go-junit-report are opaque values with uninterpreted fields.",
+    "contract-based deductive verification (search/count loop invariants, recursive count specs, call-site and return-site obligations + SMT)", "6/C26")
 
 CLAIMED["C39"] = (
     "Proof of the ORDER in which configuration sources are applied: defaultConfigFiles ends with repo, per-architecture and local config in "
@@ -196,9 +204,11 @@ CLAIMED["C04"] = (
     "invariant); that it marks the target DependencyFailed only when a dependency was observed failed; that queueResolvedTarget starts the "
     "asynchronous queueing only for the winner of a transition out of Inactive/Semiactive (with only legal transitions requested) and counts "
     "the pending task before the goroutine is spawned. Kernel-only: the global 'at most once' argument additionally needs that no other site "
-    "moves a target back to Active (a whole-repository site invariant that is not implemented), and the worker loop, FinishBuild/WaitForBuild "
-    "channel semantics and 'reported exactly once' are outside.",
-    COMMON_NOTE + "resolveDependencies, WaitForBuild, SyncUpdateState, addPendingBuild etc. are opaque calls (they may change any heap); atomic "
+    "moves a target back to Active (a whole-repository site invariant that is not implemented), and the worker loop and 'reported exactly "
+    "once' are outside. Waiting itself: waitOnChan returns only on a path that completed a receive on the channel (select modelled as an "
+    "arbitrary choice; the 'still waiting' timer only logs), and WaitForBuild waits on the target's own finishedBuilding channel; that "
+    "only FinishBuild closes that channel is not proved.",
+    COMMON_NOTE + "resolveDependencies, SyncUpdateState, addPendingBuild etc. are opaque calls (they may change any heap); atomic "
     "compare-and-swap is assumed linearizable; goroutine bodies are not executed (go statements are call sites only).",
     "contract-based deductive verification (tracked ghosts at call sites, call-site obligations + SMT)", "6/C04")
 
@@ -208,7 +218,9 @@ CLAIMED["C13"] = (
     "feeding the request body WITH the error, so the request fails instead of delivering a well-formed but incomplete archive (ghost flag set "
     "from fs.Walk's result, loop invariant 'no failure so far'; the HTTP half was a recorded known finding until repaired in /repo). readTar "
     "reports a hit only if no directory, open, copy, close or link step failed, and httpCache.retrieve reports an error as a miss. "
-    "Kernel-only: HTTP server and custom-command behaviour, and the pipe protocol of the command cache's Retrieve, are outside.",
+    "cmdCache.Retrieve reports a hit only if readTar did; its waiting goroutine reports a clean exit only for a nil error from Wait and "
+    "closes the READ end of the pipe first (never the write end, which would turn a truncated stream into a clean EOF). "
+    "Kernel-only: HTTP server and custom-command behaviour and io.Pipe/archive/tar themselves are outside.",
     COMMON_NOTE + "fs.Walk is an assumed iteration contract; storeFile (tar writing) is opaque; cancel is an opaque callback.",
     "contract-based deductive verification (tracked ghosts, return-site obligations + SMT)", "6/C13")
 
@@ -348,7 +360,8 @@ CLAIMED["C02"] = (
     "the source hash concatenated in that order (element-wise postcondition) and fails when the source hash fails; retrieveArtifacts and "
     "buildTarget ask and fill the cache only under keys computed by mustShortTargetHash for the same target; a restore counts as a hit only "
     "after calculateAndCheckRuleHash returned nil, and after a failed verification the restored outputs are removed (RemoveOutputs, proved to "
-    "remove every declared output) and the restore is a miss. Together with C12 (complete-or-nothing directory cache entries). Kernel-only: "
+    "remove every declared output) and the restore is a miss; sourceHash hashes every path of every tool in AllTools() (named tools included; "
+    "monotone ghost set of the paths handed to the path hasher). Together with C12 (complete-or-nothing directory cache entries). Kernel-only: "
     "that equal keys imply equal definitions and inputs rests on the hash functions (C07-C09, with their recorded findings); byte-for-byte "
     "equality of restored and built trees is outside any contract.",
     COMMON_NOTE + "mustShortTargetHash is used as a function of (state, target) at the time of the call; cache back ends are opaque.",
